@@ -294,3 +294,38 @@ fn c33_with_cell_capacity() {
         Err(_) => assert!(false),
     }
 }
+
+// allocate_cstr / allocate_pstr on concrete texts with embedded NULs (several segments, link
+// cells, NUL char cells): whatever is reserved must cover whatever push_pstr writes. The text is
+// concrete (str::find on symbolic bytes defeats CBMC), the fill level is symbolic.
+macro_rules! c33_alloc_str {
+    ($name:ident, $text:expr, $cstr:expr) => {
+        #[kani::proof]
+        #[kani::unwind(24)]
+        #[kani::stub(InnerHeap::grow, grow_fail)]
+        fn $name() {
+            const CAPS: usize = 160;
+            let len: usize = kani::any();
+            kani::assume(len <= CAPS);
+            let mut heap = mk_heap(CAPS, len);
+            let old = heap.inner.byte_len;
+            let r = if $cstr { heap.allocate_cstr($text) } else { heap.allocate_pstr($text) };
+            match r {
+                Ok(_) => {
+                    assert!(heap.inner.byte_len <= heap.inner.byte_cap);
+                    assert!(heap_inv(&heap));
+                    assert!(heap.inner.byte_len > old);
+                    kani::cover!(true);
+                }
+                Err(_) => {
+                    assert!(heap.inner.byte_len == old);
+                    kani::cover!(true);
+                }
+            }
+            std::mem::forget(heap);
+        }
+    };
+}
+c33_alloc_str!(c33_allocate_cstr_nul_segments, "a\0b\0c\0d", true);
+c33_alloc_str!(c33_allocate_pstr_nul_segments, "ab\0\0cd\0e", false);
+c33_alloc_str!(c33_allocate_cstr_plain7, "abcdefg", true);
